@@ -192,7 +192,7 @@ func rulesC02(p *Prog, r *Report) {
 	r.Rule("M3", "necessary", 2, "symmetry: each matcher is equivalent to itself with the two terms exchanged (exhaustive truth table over canonical atoms)")
 	r.Rule("M4", "necessary", 2, "reflexivity: with both terms identified each matcher reduces to true for terms of its own kind")
 	r.Rule("M5", "necessary", 3, "suffix arithmetic: every strip of a tested suffix removes exactly its length; an '-or-later' license token sets the plus flag")
-	r.Rule("M6", "necessary", 2, "plus cells: with exactly one '+', the in-range test is applied with the non-plus term first; with two, only the family is compared; with none, versions must be equal")
+	r.Rule("M6", "necessary", 2, "plus cells: with exactly one '+', the in-range test is applied with the non-plus term first; with two, only the family is compared; with none, versions must be equal; each cell consults only its own test, and a match that is not the exact-equality shortcut implies that test")
 
 	// the matcher is what decides a single term against a single allowed entry: the verdict consults the
 	// allowed entries through the two pair matchers only (no side table, fast path or index in between)
